@@ -653,3 +653,224 @@ func (fc *flowCtx) pathAvoidingEdges(fn *ssa.Function, target func(ssa.Instructi
 	}
 	return nil
 }
+
+// ---------- symbolic equality of loads, linear forms, index bounds ----------
+
+// samePathLoad: a and b are loads from the same access path (same root, same fields) and no store to a field of that
+// path lies on a CFG path between the two loads.
+func (fc *flowCtx) samePathLoad(a, b ssa.Value) bool {
+	if a == b {
+		return true
+	}
+	la, ok1 := a.(*ssa.UnOp)
+	lb, ok2 := b.(*ssa.UnOp)
+	if !ok1 || !ok2 || la.Op != token.MUL || lb.Op != token.MUL || la.Parent() != lb.Parent() {
+		return false
+	}
+	pa, pb := path(la.X), path(lb.X)
+	if len(pa.Steps) != len(pb.Steps) || len(pa.Steps) == 0 || !rootSame(pa.Root, pb.Root) {
+		return false
+	}
+	flds := map[*types.Var]bool{}
+	for i := range pa.Steps {
+		if pa.Steps[i] != pb.Steps[i] {
+			return false
+		}
+		if pa.Steps[i].Elem {
+			return false // element accesses with possibly different indices
+		}
+		if pa.Steps[i].Field != nil {
+			flds[pa.Steps[i].Field] = true
+		}
+	}
+	fn := la.Parent()
+	var stores []ssa.Instruction
+	allInstrs(fn, func(i ssa.Instruction) {
+		if st, ok := i.(*ssa.Store); ok {
+			if fa, ok := st.Addr.(*ssa.FieldAddr); ok && flds[fieldOf(fa.X.Type(), fa.Field)] {
+				stores = append(stores, i)
+			}
+		}
+	})
+	for _, st := range stores {
+		if (fc.reachableFrom(fn, la, st) && fc.reachableFrom(fn, st, lb)) || (fc.reachableFrom(fn, lb, st) && fc.reachableFrom(fn, st, la)) {
+			return false
+		}
+	}
+	return true
+}
+
+// lin normalises v to base + off (through numeric conversions and +/- constants).
+func lin(v ssa.Value) (ssa.Value, int64) {
+	off := int64(0)
+	for n := 0; n < 16; n++ {
+		switch x := v.(type) {
+		case *ssa.Convert:
+			v = x.X
+			continue
+		case *ssa.ChangeType:
+			v = x.X
+			continue
+		case *ssa.BinOp:
+			if k, ok := constInt(x.Y); ok {
+				if x.Op == token.ADD {
+					off += k
+					v = x.X
+					continue
+				}
+				if x.Op == token.SUB {
+					off -= k
+					v = x.X
+					continue
+				}
+			}
+			if k, ok := constInt(x.X); ok && x.Op == token.ADD {
+				off += k
+				v = x.Y
+				continue
+			}
+		}
+		break
+	}
+	return v, off
+}
+
+func (fc *flowCtx) sameBase(a, b ssa.Value) bool {
+	return sameValue(a, b) || fc.samePathLoad(a, b)
+}
+
+// indexInBounds: at `at`, 0 <= idx < len(s) follows from dominating branch facts.
+func (fc *flowCtx) indexInBounds(s, idx ssa.Value, at ssa.Instruction) (bool, string) {
+	ib, io := lin(idx)
+	upper, lower := false, false
+	if k, ok := constInt(idx); ok && k >= 0 {
+		lower = true
+	}
+	if b, ok := ib.Type().Underlying().(*types.Basic); ok && b.Info()&types.IsUnsigned != 0 && io >= 0 {
+		lower = true
+	}
+	for _, c := range cmpsAt(at) {
+		if c.Y == nil {
+			continue
+		}
+		x, y, op := c.X, c.Y, c.Op
+		// orient: x op len(s)
+		if isLenOfAny(fc, x, s) {
+			x, y, op = y, x, swapOp(op)
+		}
+		if isLenOfAny(fc, y, s) {
+			xb, xo := lin(x)
+			if fc.sameBase(xb, ib) {
+				switch op {
+				case token.LSS: // xb+xo < len  => ib+io < len if io <= xo
+					if io <= xo {
+						upper = true
+					}
+				case token.LEQ: // xb+xo <= len => ib+io < len if io < xo
+					if io < xo {
+						upper = true
+					}
+				}
+			}
+			continue
+		}
+		// lower bounds: x op const
+		if k, ok := constInt(y); ok {
+			xb, xo := lin(x)
+			if fc.sameBase(xb, ib) {
+				switch op {
+				case token.GTR: // xb+xo > k => xb >= k+1-xo => ib+io >= k+1-xo+io
+					if k+1-xo+io >= 0 {
+						lower = true
+					}
+				case token.GEQ:
+					if k-xo+io >= 0 {
+						lower = true
+					}
+				}
+			}
+		}
+		if k, ok := constInt(x); ok {
+			yb, yo := lin(y)
+			if fc.sameBase(yb, ib) {
+				switch op {
+				case token.LSS: // k < yb+yo
+					if k+1-yo+io >= 0 {
+						lower = true
+					}
+				case token.LEQ:
+					if k-yo+io >= 0 {
+						lower = true
+					}
+				}
+			}
+		}
+	}
+	// range-loop induction variable: phi(-1, phi+1) compared `< len` — lower bound by construction
+	if lb, ok := phiLower(ib); ok && lb+io >= 0 {
+		lower = true
+	}
+	switch {
+	case upper && lower:
+		return true, ""
+	case !upper:
+		return false, "no dominating test bounds the index by the slice's length"
+	default:
+		return false, "no dominating test shows the index is non-negative"
+	}
+}
+
+func isLenOfAny(fc *flowCtx, v, s ssa.Value) bool {
+	c, ok := peelConv(v).(*ssa.Call)
+	if !ok {
+		return false
+	}
+	if b, ok := c.Call.Value.(*ssa.Builtin); !ok || b.Name() != "len" {
+		return false
+	}
+	a := c.Call.Args[0]
+	return sameValue(a, s) || sameSliceSource(a, s) || fc.samePathLoad(a, s) || cellSame(a, s)
+}
+
+// cellSame: loads of the same local/captured variable cell that is stored exactly once (parameters captured by closures).
+func cellSame(a, b ssa.Value) bool {
+	la, ok1 := a.(*ssa.UnOp)
+	lb, ok2 := b.(*ssa.UnOp)
+	if !ok1 || !ok2 || la.Op != token.MUL || lb.Op != token.MUL {
+		return false
+	}
+	ca, cb := peelCell(la.X), peelCell(lb.X)
+	if ca != cb {
+		return false
+	}
+	if _, ok := ca.(*ssa.Alloc); !ok {
+		return false
+	}
+	stores, esc := cellStores(ca)
+	return !esc && len(stores) == 1
+}
+
+// phiLower: if v is a loop counter phi(c0, v+1) (go/ssa's range loops start at -1 and pre-increment; plain for loops
+// start at their initial constant), returns c0, a lower bound of v.
+func phiLower(v ssa.Value) (int64, bool) {
+	phi, ok := v.(*ssa.Phi)
+	if !ok {
+		return 0, false
+	}
+	lb, have := int64(0), false
+	for _, e := range phi.Edges {
+		if b, ok := e.(*ssa.BinOp); ok && b.Op == token.ADD && b.X == ssa.Value(phi) {
+			if k, isK := constInt(b.Y); isK && k >= 0 {
+				continue
+			}
+		}
+		k, isK := constInt(e)
+		if !isK {
+			return 0, false
+		}
+		if !have || k < lb {
+			lb, have = k, true
+		}
+	}
+	return lb, have
+}
